@@ -23,6 +23,9 @@ RULE = (
     "equal object (dtype, shape, torch.equal; modules by class + state_dict; shared storage still "
     "shared). Non-trivial = >= 2 storages, a zero-size tensor or shared storage; distinct = "
     "distinct (spec, payload, overwrite)."
+    ' Also: models of 200-1500 tensors at pickle protocols 2/4/5 (multi-frame data.pkl),'
+    ' parameters passed positionally, and a further injection through the same wrapper after'
+    ' overwrite=True (both payloads must then run once).'
 )
 ASSUMPTIONS = [
     "torch 2.x zip writer/reader as installed; other torch versions are not explored",
